@@ -379,7 +379,37 @@ def cli_model_input(line, impl_answer):
     return "ctrace %s %s" % (m.group(1), t[4])
 
 
+def judge_ctcp(ctx, idx, op, impl, mi, ms, reason):
+    """randomised multi-threaded runs over real TCP through connect(): outcome only (supporting evidence)"""
+    f = []
+    lab = label_kv(" ".join(op[1:]))
+    ctx.count("tcp_scenarios")
+    if impl.startswith("skipped"):
+        return f
+    if impl != mi:
+        f.append(Finding("correspondence", idx, "real-TCP client run differs from the outcome the model predicts", expected=mi, observed=impl, name="Client model <-> DiameterClient::connect/handle/send_message over loopback TCP (outcome)"))
+    res = impl[4:].split(",") if impl.startswith("res=") else []
+    n = int(lab.get("n", "0"))
+    base = (int(lab.get("id", "0")) * 1000 + 17) % (1 << 32)
+    seen = set()
+    for i, rv in enumerate(res):
+        if rv.startswith("got:"):
+            _, h, e = rv.split(":")
+            if int(h) != (base + i) % (1 << 32):
+                f.append(Finding("property", idx, "over TCP: the future of request %d received an answer with another hop-by-hop id (%s)" % (i, h), expected="got:%d:*" % ((base + i) % (1 << 32)), observed=rv, name="C11_safety"))
+            if e in seen:
+                f.append(Finding("property", idx, "over TCP: one answer delivered to two futures", expected="at most once", observed=impl, name="C11_once"))
+            seen.add(e)
+        elif rv == "pending":
+            f.append(Finding("property", idx, "over TCP: a response future is still pending 8 s after the peer %s" % ("closed the connection" if lab.get("cut", "-") != "-" else "answered"), expected="answer or error", observed=impl, name="C12_stopped"))
+    if lab.get("cut", "-") == "-" and (len(res) != n or any(not rv.startswith("got:") for rv in res)):
+        f.append(Finding("property", idx, "over TCP: a request the peer answered did not get its answer", expected=mi, observed=impl, name="C11_delivery"))
+    return f
+
+
 def judge_cli(ctx, idx, op, impl, mi, ms, reason):
+    if op[0] == "ctcp":
+        return judge_ctcp(ctx, idx, op, impl, mi, ms, reason)
     if op[0] != "cli":
         return same(ctx, idx, op, impl, mi, "dictionary set-up")
     f = []
@@ -665,8 +695,8 @@ PROPS = {
     "C09": dict(family="c09", judge=judge_c08, probes=("serve",), title="Server survives connection loss at any byte offset"),
     "C10": dict(family="c10", judge=judge_c10, probes=("lsn",), title="One misbehaving connection cannot disturb the others"),
     "C13": dict(family="c13", judge=judge_c13, probes=("tls",), title="TLS settings are honoured exactly"),
-    "C11": dict(family="c11", judge=judge_cli, probes=("cli",), model_input=cli_model_input, title="Client delivers each answer to the request it belongs to"),
-    "C12": dict(family="c12", judge=judge_cli, probes=("cli",), model_input=cli_model_input, title="Every response future eventually completes"),
+    "C11": dict(family="c11", judge=judge_cli, probes=("cli", "ctcp"), model_input=cli_model_input, title="Client delivers each answer to the request it belongs to"),
+    "C12": dict(family="c12", judge=judge_cli, probes=("cli", "ctcp"), model_input=cli_model_input, title="Every response future eventually completes"),
     "C14": dict(family="c14", judge=judge_c14, probes=("dget", "dbyname", "dapp", "dcmd"), title="Dictionary lookups reflect exactly what was loaded, latest wins"),
     "C15": dict(family="c15", extra=shipped_defs, judge=judge_c15, probes=("dec", "dget", "dbyname", "rt"), title="AVPs are typed by their exact dictionary entry or rejected"),
     "C16": dict(family="c16", extra=shipped_defs, judge=judge_c16, probes=("add_by_name", "avp_name", "enc", "dump", "len"), title="Building an AVP by name follows the dictionary; failure changes nothing"),
